@@ -1802,15 +1802,16 @@ def evaluate__round(self: XPathFunction, context: ta.ContextType = None) \
 
     precision: int = self.get_argument(context, index=1, default=0, cls=int)
     try:
-        if precision < 0:
-            return type(arg)(round(arg, precision))  # type: ignore[call-overload, arg-type]
-
         number = decimal.Decimal(arg)
-        exponent = decimal.Decimal('1') / 10 ** precision
+        if number.as_tuple().exponent >= -precision:  # type: ignore[operator]
+            return arg  # no digit to round off
+
+        exponent = decimal.Decimal(1).scaleb(-precision)
+        ctx = decimal.Context(prec=max(28, len(number.as_tuple().digits) + 1))
         if number > 0:
-            return type(arg)(number.quantize(exponent, rounding='ROUND_HALF_UP'))
+            return type(arg)(number.quantize(exponent, rounding='ROUND_HALF_UP', context=ctx))
         else:
-            return type(arg)(number.quantize(exponent, rounding='ROUND_HALF_DOWN'))
+            return type(arg)(number.quantize(exponent, rounding='ROUND_HALF_DOWN', context=ctx))
     except TypeError as err:
         if isinstance(context, XPathSchemaContext):
             return []
